@@ -138,17 +138,11 @@ func (mc *MemCore) Write(ent zapcore.Entry, fields []zapcore.Field) error {
 	mc.mu.Lock()
 	defer mc.mu.Unlock()
 
-	var entry *observer.LoggedEntry
+	// every write gets its own entry: GetLogs hands out pointers to the entries
+	// in the ring and its callers (WriteLogs) read them after the lock is
+	// released, so an entry must not be modified once it is in the ring
 	r := mc.head()
-	v := r.Value
-	if v == nil {
-		entry = &observer.LoggedEntry{}
-		r.Value = entry
-	} else {
-		entry = v.(*observer.LoggedEntry)
-	}
-	entry.Entry = ent
-	entry.Context = fields
+	r.Value = &observer.LoggedEntry{Entry: ent, Context: fields}
 	if mc.cur != nil {
 		*mc.cur = r.Next()
 	} else {
